@@ -10,7 +10,9 @@ use crate::hast::{H, hb};
 use crate::util::Rng;
 use num_bigint::BigInt;
 
-pub const KINDS: [&str; 16] = [
+pub const KINDS: [&str; 18] = [
+    "name-subterm",
+    "name-subterm",
     "variable-for-variable",
     "variable-for-variable",
     "variable-for-atom",
@@ -143,6 +145,25 @@ impl Ed<'_> {
                     _ => (Some(hb(H::Bool)), if coin { H::True } else { H::False }),
                 };
                 Some(H::Paren(hb(H::Let(self.fresh.clone(), ann, hb(def), hb(x.clone())))))
+            }
+            ("name-subterm", H::Lit(_) | H::True | H::False | H::Bin(..) | H::Neg(_)) if pos == Pos::Other => {
+                // a local group that names the subterm (its type is evident from its head), alone
+                // or followed by a second definition that the body uses as well
+                let is_int = match x {
+                    H::Lit(_) | H::Neg(_) => true,
+                    H::Bin(op, ..) => op.is_arith(),
+                    _ => false,
+                };
+                let ty = if is_int { H::Int } else { H::Bool };
+                let v = H::Var(self.fresh.clone());
+                let inner = if !coin {
+                    v
+                } else if is_int {
+                    H::Let(self.fresh2.clone(), Some(hb(H::Int)), hb(H::lit(1)), hb(H::Bin(Op::Mul, hb(v), hb(H::Var(self.fresh2.clone())))))
+                } else {
+                    H::Let(self.fresh2.clone(), Some(hb(H::Bool)), hb(H::False), hb(H::If(hb(v), hb(H::True), hb(H::Var(self.fresh2.clone())))))
+                };
+                Some(H::Paren(hb(H::Let(self.fresh.clone(), Some(hb(ty)), hb(x.clone()), hb(inner)))))
             }
             ("interpose-binder", _) if !matches!(x, H::Paren(_)) => {
                 let (ty, arg) = match pick3 {
